@@ -3,6 +3,7 @@ import Driver.Scan
 import Driver.Plans
 import Driver.Order
 import Driver.Aggr
+import Driver.Eval
 namespace Driver
-def handlers : List (List String → Option String) := [handleScan, handlePlans, handleOrder, handleAggr]
+def handlers : List (List String → Option String) := [handleScan, handlePlans, handleOrder, handleAggr, handleEval]
 end Driver
